@@ -277,6 +277,11 @@ func (c *channelInstance) verifyAndDecrypt(m *MessageChunk, r []byte) ([]byte, e
 		headerLength += m.SymmetricSecurityHeader.Len()
 	}
 
+	// a chunk that is too short to hold the headers cannot be verified
+	if len(r) < headerLength {
+		return nil, ua.StatusBadSecurityChecksFailed
+	}
+
 	b := make([]byte, len(r))
 	copy(b, r)
 
@@ -288,8 +293,14 @@ func (c *channelInstance) verifyAndDecrypt(m *MessageChunk, r []byte) ([]byte, e
 		b = append(b[:headerLength], p...)
 	}
 
-	signature := b[len(b)-c.algo.RemoteSignatureLength():]
-	messageToVerify := b[:len(b)-c.algo.RemoteSignatureLength()]
+	// the chunk must at least hold the headers and the signature
+	signatureLength := c.algo.RemoteSignatureLength()
+	if signatureLength < 0 || len(b) < headerLength+signatureLength {
+		return nil, ua.StatusBadSecurityChecksFailed
+	}
+
+	signature := b[len(b)-signatureLength:]
+	messageToVerify := b[:len(b)-signatureLength]
 
 	if err := c.algo.VerifySignature(messageToVerify, signature); err != nil {
 		return nil, ua.StatusBadSecurityChecksFailed
@@ -297,6 +308,10 @@ func (c *channelInstance) verifyAndDecrypt(m *MessageChunk, r []byte) ([]byte, e
 
 	var paddingLength int
 	if c.sc.cfg.SecurityMode == ua.MessageSecurityModeSignAndEncrypt || isAsymmetric {
+		// the padding size byte(s) must be present
+		if len(messageToVerify) < headerLength+2 {
+			return nil, ua.StatusBadSecurityChecksFailed
+		}
 		paddingLength = int(messageToVerify[len(messageToVerify)-1])
 		if c.algo.SignatureLength() > 256 {
 			paddingLength <<= 8
@@ -304,6 +319,11 @@ func (c *channelInstance) verifyAndDecrypt(m *MessageChunk, r []byte) ([]byte, e
 			paddingLength += 1
 		}
 		paddingLength += 1
+	}
+
+	// the padding cannot be longer than the decrypted body
+	if len(messageToVerify) < headerLength+paddingLength {
+		return nil, ua.StatusBadSecurityChecksFailed
 	}
 
 	b = messageToVerify[headerLength : len(messageToVerify)-paddingLength]
